@@ -31,7 +31,7 @@ def run(ctx):
     ctx.rule("C17-R4", "a batch kill recycles only elements that died: the bound of the recycled prefix counts completed kills")
     ctx.rule("C17-R3", "no index is lost in merge: every pending creation becomes alive or is reported dead (and then recycled by R1)")
     ctx.rule("C17-R5", "the free list takes every index it is handed: its growing methods push the whole of their parameter")
-    for cfg in (["A"] if ctx.tier == "quick" else ["A", "F", "N", "FN"]):
+    for cfg in (["A", "N"] if ctx.tier == "quick" else ["A", "F", "N", "FN"]):
         facts = ctx.xfacts(cfg)
         model = AllocModel(facts)
         ctx.anchor("C17-R1", "free-list growers (EntityCache methods pushing onto `cache`)", model.growers)
